@@ -8,6 +8,7 @@ import Pdlv.Seg
 import Pdlv.Static
 import Pdlv.Py
 import Pdlv.Cxx
+import Pdlv.PySpec
 import Pdlv.Analyzer
 import Pdlv.ToJson
 import Pdlv.Syntax
@@ -243,6 +244,15 @@ def handle (st : State) (req : Json) : Except String (State × Json) := do
         | .ok pv => pure (Json.mkObj [("r", "ok"), ("value", jsonOfValue pv)])
         | .err e => pure (Json.mkObj [("r", "err"), ("e", Json.str (encErrName e))])
         | .panic h => pure (Json.mkObj [("r", "panic"), ("h", Json.str (hazardName h))])
+      | "pyspec" =>
+        -- the model of `Root.parse_all(bytes)` of the Python back end with its try-each-child specialization
+        match hexToBytes (← J.str c "hex").toList, PySpec.tree f ty with
+        | some bs, some t =>
+          match PySpec.parseAll cfg t bs with
+          | .ok (cid, cv) => pure (Json.mkObj [("r", "ok"), ("type", Json.str cid), ("value", jsonOfValue cv), ("wf", Json.bool (PySpec.wfNode t))])
+          | .err e => pure (Json.mkObj [("r", "err"), ("e", Json.str (decErrName e)), ("wf", Json.bool (PySpec.wfNode t))])
+          | .panic h => pure (Json.mkObj [("r", "panic"), ("h", Json.str (hazardName h))])
+        | _, _ => pure (Json.mkObj [("r", "none")])
       | "table" =>
         match f.lookup ty, Schema.build f with
         | some d, some sc =>
